@@ -52,7 +52,7 @@ class KeyIds(Obligation):
     def __init__(self,seed=0,known=(),**kw):
         self.seed=seed
         self.bounds={'ed25519':'32 key bytes, 3 of them free','ecdsa':'65-byte uncompressed point, 2 bytes free','rsa':'the repository\'s 2048-bit fixture with both RSA-PSS schemes, and a synthetic key whose PEM body fills complete 64-character lines exactly (concrete: PEM/base64 of symbolic bytes is outside the models)',
-                     'hash algorithm list':'default [sha256,sha512], absent, [sha256], unsorted [sha512,sha256], repeated [sha256,sha256], empty []','construction paths':'PublicKey::new, from_ed25519(_with_keyid_hash_algorithms), from_spki(DER), from_pem_spki(PEM) (rsa)'}
+                     'hash algorithm list':'default [sha256,sha512], absent, [sha256], unsorted [sha512,sha256], repeated [sha256,sha256], empty []','construction paths':'PublicKey::new, from_ed25519(_with_keyid_hash_algorithms), from_spki(DER), from_pem_spki(PEM) (rsa)','history':'none / the same key material constructed earlier in the process with another hash-algorithm list / with the other RSA-PSS scheme'}
         self.witnesses=['ed25519','ecdsa','rsa']; self.seen=set()
     def setup(self,eng,tier):
         self.eng=eng; self.b=B(eng)
@@ -67,6 +67,12 @@ class KeyIds(Obligation):
         b=self.b
         def go(run,args):
             kind,value,algs=args
+            # history: the same key material may have been seen before in this process under another hash-algorithm list or another
+            # scheme (state that outlives a call - a cache - must not leak into this key's identifier)
+            hist=run.ghost.get('key_history'); run.ghost['digests']=[]
+            if hist:
+                htyp,hsch,halgs=hist
+                eng.call_fn(run,self.new,[b.variant('KeyType',htyp),b.variant('SignatureScheme',hsch),none() if halgs is None else some(VecO([mk_string(x) for x in halgs])),u8vec(list(value))])
             run.ghost['digests']=[]
             A=lambda: none() if algs is None else some(VecO([mk_string(x) for x in algs]))
             typ={'ed25519':'Ed25519','ecdsa':'Ecdsa','rsa':'Rsa','rsa512':'Rsa','rsa_exact':'Rsa'}[kind]; sch={'ed25519':'Ed25519','ecdsa':'EcdsaP256Sha256','rsa':'RsaSsaPssSha256','rsa512':'RsaSsaPssSha512','rsa_exact':'RsaSsaPssSha256'}[kind]
@@ -93,11 +99,19 @@ class KeyIds(Obligation):
             der=open(os.path.join(REPO,'tests/rsa/rsa-2048.spki.der'),'rb').read()
             # RSAPublicKey = content of the BIT STRING (skip outer SEQUENCE, AlgorithmIdentifier, BIT STRING header)
             i=der.index(bytes.fromhex('0382010f00'))+5; value=list(der[i:])
-        return [kind,value,algs],{'kind':kind,'value':value,'algs':algs}
+        typ={'ed25519':'Ed25519','ecdsa':'Ecdsa','rsa':'Rsa','rsa512':'Rsa','rsa_exact':'Rsa'}[kind]; sch={'ed25519':'Ed25519','ecdsa':'EcdsaP256Sha256','rsa':'RsaSsaPssSha256','rsa512':'RsaSsaPssSha512','rsa_exact':'RsaSsaPssSha256'}[kind]
+        h=run.pick(3,'history')
+        other_algs=None if algs is not None else ['sha256','sha512']
+        other_sch={'RsaSsaPssSha256':'RsaSsaPssSha512','RsaSsaPssSha512':'RsaSsaPssSha256'}.get(sch)
+        if h==2 and other_sch is None: raise Infeasible()
+        run.ghost['key_history']=[None,(typ,sch,other_algs),(typ,other_sch,algs)][h]
+        hist_desc=[None,{'same key first constructed with hash algorithms':other_algs},{'same key first constructed with scheme':other_sch}][h]
+        return [kind,value,algs],{'kind':kind,'value':value,'algs':algs,'history':hist_desc}
     def check(self,run,out,g):
         rec={'outcome':'ok','viol':None,'wit':[],'sample':None,'obl':1}
         r0,m0=run.check_sat(z3.BoolVal(True))
         scn={'kind':'keyid','key':g['kind'],'value':[model_value(m0,x) for x in g['value']],'algs':g['algs']}
+        if g.get('history'): scn['history']=g['history']
         if out[0]!='ret':
             rec['outcome']='panic'; rec['viol']={'kind':'panic','known_key':None,'scenario':scn,'predicted':'panic','what':'key construction panics: '+str(out[1])}; return rec
         outs=out[1]; b=self.b
@@ -124,8 +138,15 @@ class KeyIds(Obligation):
                 scn2=dict(scn); scn2['value']=[model_value(m,x) for x in g['value']]
                 actual=hashlib.sha256(bytes(model_value(m,x) for x in d.ghost['pre'])).hexdigest()     # the id the crate computes; it differs from the reference id
                 rec['viol']={'kind':'key_id_preimage_differs_from_reference','known_key':None,'scenario':scn2,'predicted':'keyid:'+actual,'what':'the bytes hashed into the key id differ from the reference canonical description of the key'}; return rec
-        if len(run.ghost['digests'])!=len(outs):
-            rec['viol']={'kind':'key_id_not_a_digest','known_key':None,'scenario':scn,'predicted':'keyid:?','what':'a construction path did not compute the key id as a digest'}; return rec
+        # every identifier handed out is the hex text of a digest of the reference description (a path may reuse a digest computed
+        # earlier in the run - what matters is the identifier it reports)
+        for (name,r),idb in zip(outs,ids):
+            okd=[z3.And(bytes_eq(idb,hexs(d.b)).z(),bytes_eq(d.ghost['pre'],want).z()) for d in run.ghost['digests'] if len(idb)==2*len(d.b)]
+            rr,m=run.check_sat(z3.Not(z3.Or(*okd)) if okd else z3.BoolVal(True))
+            if rr==z3.sat:
+                scn2=dict(scn); scn2['value']=[model_value(m,x) for x in g['value']]
+                actual=bytes(model_value(m,x) for x in idb).decode(errors='replace')
+                rec['viol']={'kind':'key_id_is_not_the_digest_of_the_reference_description','known_key':None,'scenario':scn2,'predicted':'keyid:'+actual,'what':'the identifier reported by %s is not the SHA-256 of the reference description of this key (history: %s)'%(name,g.get('history'))}; return rec
         wk='rsa' if kind.startswith('rsa') else kind
         if wk not in self.seen: self.seen.add(wk); rec['wit'].append(wk)
         # concrete sample for native validation: the id itself
